@@ -77,14 +77,15 @@ type PoolEvent struct {
 
 // LogPool is a deterministic BufferPool: LIFO, logs every call, poisons returned buffers.
 type LogPool struct {
-	free   []interface{}
-	ids    map[*byte]int
-	Events []PoolEvent
-	Who    string // name of the connection currently calling (set by the harness)
-	Out    map[int]string
-	Hook   func(op string)
-	Stamp  func() (call, op int)
-	hand   sync.Mutex // real Put->Get edge, as sync.Pool gives
+	free    []interface{}
+	ids     map[*byte]int
+	Events  []PoolEvent
+	Who     string // name of the connection currently calling (set by the harness)
+	Out     map[int]string
+	Hook    func(op string)
+	Stamp   func() (call, op int)
+	hand    sync.Mutex // real Put->Get edge, as sync.Pool gives
+	Problem string
 }
 
 //go:norace
@@ -140,6 +141,11 @@ func (p *LogPool) Put(v interface{}) {
 	p.hand.Lock()
 	defer p.hand.Unlock()
 	id := p.idOf(v)
+	for _, f := range p.free {
+		if p.idOf(f) == id && p.Problem == "" {
+			p.Problem = fmt.Sprintf("buffer #%d put twice (second time by %s)", id, p.Who)
+		}
+	}
 	p.ev("put", id)
 	b := websocket.VerifPoolBuf(v)
 	for i := range b {
